@@ -5,6 +5,7 @@ import (
 	"fmt"
 	"os"
 	"strings"
+	"sync/atomic"
 	"time"
 
 	"verif/drive"
@@ -167,7 +168,20 @@ func progReplay(v ProgVerdict, extra map[string]string) func() findings.Replay {
 
 // confirm re-judges a failing program twice; the observations must be
 // identical, otherwise the harness itself is nondeterministic (hard error).
+//
+// One exception: a run that the sandbox KILLED (CPU limit, wall-clock backstop, output cap) on a heavily loaded
+// machine and that runs to its normal end - with the expected observation - on both re-runs is not a failure of
+// the program; it is counted (TransientKills) and an empty verdict is returned, which the callers drop.
+var TransientKills int64
+
 func confirm(prog *tsmodel.Prog, o ProgOpts, first ProgVerdict) ProgVerdict {
+	if first.Symptom == "runaway" {
+		a, b := JudgeBash(prog, o), JudgeBash(prog, o)
+		if a.Symptom == "" && b.Symptom == "" {
+			atomic.AddInt64(&TransientKills, 1)
+			return a
+		}
+	}
 	for k := 0; k < 2; k++ {
 		again := JudgeBash(prog, o)
 		same := again.Symptom == first.Symptom
@@ -194,3 +208,9 @@ func oneLine(s string) string {
 }
 
 func getenv(k string) string { return os.Getenv(k) }
+
+// finish adds the harness-level counters to the evidence and ends the run.
+func finish(r *findings.Run) int {
+	r.Set("sandbox_kills_that_did_not_repeat", int(atomic.LoadInt64(&TransientKills)))
+	return r.Finish()
+}
